@@ -69,6 +69,13 @@ def build(tier: str, rng: random.Random):
     for o in calcheck.sample_scripts(of, 60 if tier == "quick" else 600, rng):
         lu = calcfg.LU["ABA"] if rng.random() < 0.5 else bf["lineup"]
         scripts.append(calcheck.to_script(o, {**bf, "lineup": lu}, seed=rng.randrange(1, 10**6), saving=rng.random() < 0.5))
+    # ... and a batch that ends a call early (convergence stop) counts like any other for the calls that follow
+    bc = calcfg.config("Gen_C14")
+    oc = calcheck.maximal(calcheck.tlc_scripts("Gen_C14"))
+    n_avail += len(oc)
+    for o in calcheck.sample_scripts(oc, 60 if tier == "quick" else 269, rng):
+        scripts.append(calcheck.to_script(o, {**bc, "lineup": calcfg.LU["ABA"]}, seed=rng.randrange(1, 10**6), saving=rng.random() < 0.5,
+                                          verbose=rng.random() < 0.5, prec=rng.randint(0, 6)))
     # RL scheduler: every agent choice sequence
     for gen, k in (("Gen_C09_rl", 70 if tier == "quick" else 115), ("Gen_C09_rl2", 50 if tier == "quick" else 400)):
         b = calcfg.config(gen)
